@@ -277,9 +277,26 @@ def shard(ctx):
             tpath = os.path.join(sdir, "t", "tests", "rr_tests.json" if scen != "bad-testfile" else "rr_tests.yaml")
             open(rpath, "w").write(rtext)
             open(tpath, "w").write(ttext)
+            # a directory with 2-3 rules files: the scenario file at a random position among files whose expectations all match
+            k = rng.randint(2, 3)
+            pos = rng.randrange(k)
+            stems = sorted(rng.sample(["a_first", "b2", "m_mid", "rr", "z_last", "Z_upper", "01"], k))
+            good_rtext = rule_text(rules, "passing", 0) + rule_text(rules, "failing", 0) + rule_text(rules, "skipping", 0)
+            good_ttext = json.dumps([{"name": "case%d" % i, "input": specs[i]["input"], "expectations": {"rules": truth[i]}} for i in range(ncases)], indent=1)
+            multi = {}
+            for j, stem in enumerate(stems):
+                if j == pos:
+                    multi[stem + ".guard"] = rtext
+                    multi[os.path.join("tests", stem + ("_tests.json" if scen != "bad-testfile" else "_tests.yaml"))] = ttext
+                else:
+                    multi[stem + ".guard"] = good_rtext
+                    multi[os.path.join("tests", stem + "_tests.json")] = good_ttext
+            os.makedirs(os.path.join(sdir, "tm", "tests"))
+            for rel, content in multi.items():
+                open(os.path.join(sdir, "tm", rel), "w").write(content)
             for fmt in ("plain", "json", "yaml", "junit"):
-                for layout in ("files", "dir"):
-                    argv = ["test"] + (["-r", rpath, "-t", tpath] if layout == "files" else ["-d", os.path.join(sdir, "t")])
+                for layout in ("files", "dir", "dir-multi"):
+                    argv = ["test"] + (["-r", rpath, "-t", tpath] if layout == "files" else ["-d", os.path.join(sdir, "t" if layout == "dir" else "tm")])
                     if fmt != "plain":
                         argv += ["-o", fmt]
                     code, out, err = core.run_cli(argv)
@@ -287,6 +304,9 @@ def shard(ctx):
                     m = matches(exp, code)
                     ctx.res.extra.setdefault("exit_class_x_mode", set()).add("test:%s:%s:%s" % (exp, fmt, layout))
                     case = {"kind": "test", "argv_tail": argv[1:], "rules": rtext, "tests": ttext, "scenario": scen, "fmt": fmt, "layout": layout, "expected": exp}
+                    if layout == "dir-multi":
+                        case["multi"] = multi
+                        case["position"] = "%d/%d" % (pos, k)
                     if m is None:
                         ctx.inconclusive("crash-exit-%s" % code)
                         continue
@@ -314,7 +334,11 @@ def replay(case, w):
         tpath = os.path.join(sdir, "t", "tests", "rr_tests.json" if case["scenario"] != "bad-testfile" else "rr_tests.yaml")
         open(rpath, "w").write(case["rules"])
         open(tpath, "w").write(case["tests"])
-        argv = ["test"] + (["-r", rpath, "-t", tpath] if case["layout"] == "files" else ["-d", os.path.join(sdir, "t")])
+        if case.get("multi"):
+            os.makedirs(os.path.join(sdir, "tm", "tests"))
+            for rel, content in case["multi"].items():
+                open(os.path.join(sdir, "tm", rel), "w").write(content)
+        argv = ["test"] + (["-r", rpath, "-t", tpath] if case["layout"] == "files" else ["-d", os.path.join(sdir, "t" if case["layout"] == "dir" else "tm")])
         if case["fmt"] != "plain":
             argv += ["-o", case["fmt"]]
         code, out, err = core.run_cli(argv)
@@ -333,7 +357,7 @@ def main(tier, seed):
     floor = {"cases": (res.cases, 1500), "exit_class_x_mode": (have, len(need) - 4 if tier == "quick" else len(need))}
     return core.finish("C06", tier, seed, res, t0,
                        rule="scenarios = tuples of 1..3 rules-file kinds x 1..3 data-file kinds (every position of every kind; thorough: all tuples of "
-                            "length <=2 plus 6000 longer ones) x 12 invocation modes, each run as a real process; `test` scenarios x 4 formats x 2 layouts; "
+                            "length <=2 plus 6000 longer ones) x 12 invocation modes, each run as a real process; `test` scenarios x 4 formats x 3 layouts (files, directory, directory with 2-3 rules files and the scenario file at each position); "
                             "distinct = (mode, expected class, exit code, #rules files, #data files)",
                        floor=floor, exhaustive=False,
                        assumptions=["per-pair verdicts come from singleton run_checks evaluations", "crash exits (101/signal) are routed to C08 and counted inconclusive here",
